@@ -285,6 +285,10 @@ func (r *Run) Violation(signature string, witness any, detail string) {
 	// at most 4 witnesses per signature (so that a listed known finding cannot crowd out a
 	// different violation), MaxViolations of the first signature, 40 in all
 	if (r.sigCount[signature] <= 4 || len(r.sigCount) == 1) && len(r.violations) < 40 && (len(r.violations) < MaxViolations || r.sigCount[signature] <= 4) {
+		// freeze the witness now: callers keep using (and extending) the structures it points to
+		if raw, err := json.Marshal(witness); err == nil {
+			witness = json.RawMessage(raw)
+		}
 		v := Violation{Signature: signature, Witness: witness, Detail: detail}
 		r.violations = append(r.violations, v)
 		// also append to a side file at once: a later process-fatal event must not lose it
